@@ -1447,7 +1447,7 @@ impl Formatter {
     if self.html {
       format!("<span class=\"mech-comment\"><span class=\"mech-comment-sigil\">--</span>{}</span>", comment_text)
     } else {
-      format!("{}\n",comment_text)
+      format!("--{}\n",comment_text)
     }
   }
 
